@@ -1238,3 +1238,42 @@ def trivia_specs():
         ParseTriviaSpec(False, False, True),
         ParseTriviaSpec(False, True, True),
     ]
+
+
+# ============================================================================ bounded repetitions (delegating)
+U = oracle("unrolled")
+
+
+class DelegatingRepeatSpec(OpSpec):
+    """e{n}, e{n,}, e{,n}, e{m,n}: parse() must be exactly `_unrolled(self).parse(state, pairs)`.
+
+    The chain that carries the property: (1) this obligation - the class' parse() has no behaviour of its
+    own beyond the delegation; (2) `_unrolled(self)` is the Sequence the property names (run concretely on
+    schematic instances, contracts/unroll_struct.py - bounded in n); (3) Sequence / Optional / Repeat
+    refine their Spec clauses (proved above)."""
+
+    fail_care = ("tags", "sup", "far", "fi", "pos", "stk")
+
+    def __init__(self, cls_name: str):
+        self.cls = f"{X}.postfix.{cls_name}"
+        super().__init__()
+
+    def mk_self(self, run):
+        f = {"expression": Child(0, "c"), "tag": None, "number": run.fresh("n", "int"), "min": run.fresh("m", "int"), "max": run.fresh("mx", "int")}
+        return run.heap.alloc(self.cls, f, fresh=False)
+
+    @property
+    def summaries(self):
+        def unrolled(run: Run, recv, args, kwargs):
+            ok = len(args) == 1 and isinstance(args[0], Ref) and args[0] == run.pre["me"]
+            run.oblige("delegates.self", ok)
+            return Child(0, "unrolled")
+
+        return {**StateModel.summaries, f"{X}.postfix._unrolled": unrolled}
+
+    def K(self, run, L0):  # noqa: N802, N803
+        return ocall(U, 0, L0)
+
+
+def bounded_repeat_specs():
+    return [DelegatingRepeatSpec(c) for c in ("RepeatExact", "RepeatMin", "RepeatMax", "RepeatMinMax")]
